@@ -797,17 +797,44 @@ class Facts:
 
     @staticmethod
     def _canonicalise_impls(text, d):
+        """`module::<impl Type<Args>>::method` (an inherent impl block written in another module than the type's) -> `Type::<Args>::method`,
+        the name the same method has when the block stands next to the type; Args may nest"""
         import re as _re
         local_adts = {a["id"] for a in d["adts"] if str(a.get("file", "")).startswith("src/")}
-        rx = _re.compile(r"((?:\w+::)+)<impl ((?:\w+::)*\w+)(?:<([^<>]*)>)?>::")
-        hit = [False]
-        def sub(m):
-            if m.group(2) not in local_adts:
-                return m.group(0)
-            hit[0] = True
-            return m.group(2) + ("::<" + m.group(3) + ">" if m.group(3) else "") + "::"
-        t2 = rx.sub(sub, text)
-        return t2 if hit[0] else None
+        rx = _re.compile(r"((?:\w+::)+)<impl ((?:\w+::)*\w+)")
+        out, pos, hit = [], 0, False
+        for m in rx.finditer(text):
+            if m.start() < pos or m.group(2) not in local_adts:
+                continue
+            i = m.end()
+            args = None
+            if text.startswith("<", i):
+                depth, j = 0, i
+                while j < len(text):
+                    c = text[j]
+                    if c == "<":
+                        depth += 1
+                    elif c == ">":
+                        depth -= 1
+                        if depth == 0:
+                            break
+                    elif c in '"\n':
+                        break
+                    j += 1
+                if j >= len(text) or text[j] != ">" or depth != 0:
+                    continue
+                args = text[i + 1:j]
+                i = j + 1
+            if not text.startswith(">::", i):
+                continue
+            out.append(text[pos:m.start()])
+            out.append(m.group(2) + ("::<" + args + ">" if args else "") + "::")
+            pos = i + 3
+            hit = True
+        if not hit:
+            return None
+        out.append(text[pos:])
+        return "".join(out)
 
     @staticmethod
     def _fold_units(d):
